@@ -22,10 +22,17 @@ def load_prop(pid):
 def run_case(prop, case):
     j = Judge()
     t0 = time.perf_counter()
+    from . import sel as _sel
+
+    b0 = _sel.BUFFER_REUSE[0]
     try:
         with warnings.catch_warnings():
             warnings.simplefilter("ignore")
-            prop.run(case, j)
+            try:
+                prop.run(case, j)
+            finally:
+                if _sel.BUFFER_REUSE[0] > b0:
+                    j.note("fits_on_the_array_objects_of_the_previous_fit_with_new_contents", _sel.BUFFER_REUSE[0] - b0)
     except Skip as s:
         j.skip(s.reason)
     except Exception as e:
